@@ -216,6 +216,10 @@ def error_discipline(site):
             kind = _error_test_kind(t, name)
             if kind and raises(s.body):
                 return True, kind, s
+            if kind is None and s.orelse and raises(s.orelse):
+                k2 = _error_test_kind(ast.UnaryOp(op=ast.Not(), operand=t), name)
+                if k2:
+                    return True, k2, s
             if kind:
                 return False, f"test `{ast.unparse(t)}` does not raise", s
         # any rebinding or use of other names before the test is fine; a rebinding of the result is not
